@@ -23,6 +23,8 @@ impl<K> BTreeSet<K> {
     #[verifier::external_body] pub fn kvx_from_array<const N: usize>(a: [K; N]) -> (r: BTreeSet<K>) ensures r@ == a@.to_set() { unimplemented!() }
     // `a.extend(b.iter().cloned())` is redirected here (R3)
     #[verifier::external_body] pub fn kvx_extend_from(&mut self, o: &BTreeSet<K>) ensures final(self)@ == old(self)@.union(o@) { unimplemented!() }
+    // `&a & &b` (std::ops::BitAnd for &BTreeSet; a generic BitAnd impl trips an internal error of this Verus) is redirected here (R3)
+    #[verifier::external_body] pub fn kvx_bitand(&self, o: &BTreeSet<K>) -> (r: BTreeSet<K>) ensures r@ == self@.intersect(o@) { unimplemented!() }
     // `&a - &b` / `a.sub(&b)` (std::ops::Sub for &BTreeSet): set difference
     // `a.intersection(b).next().is_some()`: only non-emptiness of the intersection is observed
     #[verifier::external_body] pub fn intersection(&self, o: &BTreeSet<K>) -> (r: KvxIntersection<K>) ensures r.nonempty() == !self@.disjoint(o@) { unimplemented!() }
@@ -55,6 +57,7 @@ impl vstd::std_specs::convert::FromSpecImpl<EntryClass> for &'static str {
 impl From<EntryClass> for &'static str {
     #[verifier::external_body] fn from(v: EntryClass) -> (r: &'static str) { unimplemented!() }
 }
+impl EntryClass { #[verifier::external_body] pub fn to_string(&self) -> (r: String) ensures r == ec_string(*self) { unimplemented!() } }
 // ---- entries: opaque, observed through uninterpreted views (accessor contracts read off server/lib/src/entry.rs) ----
 pub struct EntrySealed; pub struct EntryCommitted; pub struct EntryInit; pub struct EntryNew; pub struct EntryInvalid;
 #[verifier::external_body]
@@ -74,6 +77,10 @@ impl<V, S> Entry<V, S> {
     #[verifier::external_body] pub fn get_ava_refer(&self, a: Attribute) -> (r: Option<&BTreeSet<Uuid>>)
         ensures r is Some == self.refers(a) is Some, r is Some ==> r->Some_0@ == self.refers(a)->Some_0 { unimplemented!() }
     #[verifier::external_body] pub fn entry_match_no_index(&self, f: &Filter<FilterValidResolved>) -> (r: bool) ensures r == self.matches_filter(f) { unimplemented!() }
+    pub uninterp spec fn scopemap_groups(&self) -> Option<Set<Uuid>>;   // the groups named by the OAuth2 scope map of a client entry
+    #[verifier::external_body] pub fn get_ava_as_oauthscopemaps(&self, a: Attribute) -> (r: Option<&KvxScopeMap>)
+        ensures r is Some == self.scopemap_groups() is Some, r is Some ==> r->Some_0.groups() == self.scopemap_groups()->Some_0 { unimplemented!() }
+    #[verifier::external_body] pub fn get_uuid2rdn(&self) -> (r: String) { unimplemented!() }
     #[verifier::external_body] pub fn get_display_id(&self) -> (r: String) { unimplemented!() }
     #[verifier::external_body] pub fn get_ava_single_refer(&self, a: Attribute) -> (r: Option<Uuid>) ensures r == self.refer(a) { unimplemented!() }
     // get_ava_set(Class): the class value set, observed only through `contains(&PartialValue)` on iutf8 partial values
@@ -96,6 +103,20 @@ impl<T> core::ops::Deref for Arc<T> { type Target = T; fn deref(&self) -> (r: &T
 pub struct IdentUser { pub entry: Arc<EntrySealedCommitted> }
 pub struct Source { pub o: u8 }
 pub struct Limits { pub o: u8 }
+// BTreeMap<Uuid, BTreeSet<String>> of an OAuth2 scope map: only `keys().any(f)` is used
+#[verifier::external_body] pub struct KvxScopeMap { p: u8 }
+#[verifier::external_body] pub struct KvxUuidKeys<'a> { p: core::marker::PhantomData<&'a Uuid> }
+impl KvxScopeMap {
+    pub uninterp spec fn groups(&self) -> Set<Uuid>;
+    #[verifier::external_body] pub fn keys(&self) -> (r: KvxUuidKeys<'_>) ensures r.keyset() == self.groups() { unimplemented!() }
+}
+impl<'a> KvxUuidKeys<'a> {
+    pub uninterp spec fn keyset(&self) -> Set<Uuid>;
+    // Iterator::any: true only if the closure accepted some key (soundness direction, as vstd specifies `any`)
+    #[verifier::external_body] pub fn any<F: Fn(&'a Uuid) -> bool>(self, f: F) -> (r: bool)
+        requires forall|k: &'a Uuid| f.requires((k,))
+        ensures r ==> exists|k: &'a Uuid| self.keyset().contains(*k) && #[trigger] f.ensures((k,), true) { unimplemented!() }
+}
 // dyn ValueSetT stand-in (only `contains` of an iutf8 partial value is used by the access code)
 #[verifier::external_body] pub struct ValueSet { p: u8 }
 pub enum PartialValue { Iutf8(String), Other(u64) }
